@@ -64,6 +64,18 @@ def main():
                 cb = meta.get("caught_by") or []
                 cases.append(dict(id="seed-" + s, kind="mutant", prop=meta["property"] if (meta["property"] in cb or not cb) else cb[0],
                                   patch=os.path.join(sd, s, "patch.diff")))
+    # behaviour-preserving refactorings by independent agents (twins/): every check must stay silent on them
+    td = os.path.join(HERE, "twins")
+    if os.path.isdir(td):
+        for t in sorted(os.listdir(td)):
+            pf = os.path.join(td, t, "patch.diff")
+            if not os.path.isfile(pf):
+                continue
+            meta = json.load(open(os.path.join(td, t, "meta.json")))
+            if a.prop is None:
+                cases.append(dict(id="agent-twin-" + t, kind="twin", prop="*", patch=pf))
+            elif a.prop == meta["property"]:
+                cases.append(dict(id="agent-twin-" + t, kind="twin", prop=a.prop, patch=pf))
     base = tempfile.mkdtemp(prefix="verif-selftest-")
     t0 = time.time()
     try:
